@@ -2478,10 +2478,11 @@ class _DOP853(_AdaptiveStepRK):
             err3_scaled = err3 / scale
             err5_norm_2 = np.dot(err5_scaled, err5_scaled)
             err3_norm_2 = np.dot(err3_scaled, err3_scaled)
-            if err5_norm_2 == 0.0 and err3_norm_2 == 0.0:
+            denom = err5_norm_2 + 0.01 * err3_norm_2
+            if denom == 0.0:
+                # both estimates vanish (or their squares underflow)
                 err_norm = 0.0
             else:
-                denom = err5_norm_2 + 0.01 * err3_norm_2
                 err_norm = np.abs(h) * err5_norm_2 / np.sqrt(denom * scale.size)
 
             if err_norm <= 1.0:
@@ -2605,10 +2606,11 @@ class _DOP853(_AdaptiveStepRK):
             err3_scaled = err3 / scale
             err5_norm_2 = np.dot(err5_scaled, err5_scaled)
             err3_norm_2 = np.dot(err3_scaled, err3_scaled)
-            if err5_norm_2 == 0.0 and err3_norm_2 == 0.0:
+            denom = err5_norm_2 + 0.01 * err3_norm_2
+            if denom == 0.0:
+                # both estimates vanish (or their squares underflow)
                 err_norm = 0.0
             else:
-                denom = err5_norm_2 + 0.01 * err3_norm_2
                 err_norm = np.abs(h) * err5_norm_2 / np.sqrt(denom * scale.size)
 
             if err_norm <= 1.0:
@@ -2787,10 +2789,11 @@ class _DOP853(_AdaptiveStepRK):
             err3_scaled = err3 / scale
             err5_norm_2 = np.dot(err5_scaled, err5_scaled)
             err3_norm_2 = np.dot(err3_scaled, err3_scaled)
-            if err5_norm_2 == 0.0 and err3_norm_2 == 0.0:
+            denom = err5_norm_2 + 0.01 * err3_norm_2
+            if denom == 0.0:
+                # both estimates vanish (or their squares underflow)
                 err_norm = 0.0
             else:
-                denom = err5_norm_2 + 0.01 * err3_norm_2
                 err_norm = np.abs(h) * err5_norm_2 / np.sqrt(denom * scale.size)
 
             if err_norm <= 1.0:
@@ -2852,10 +2855,11 @@ class _DOP853(_AdaptiveStepRK):
             err3_scaled = err3 / scale
             err5_norm_2 = np.dot(err5_scaled, err5_scaled)
             err3_norm_2 = np.dot(err3_scaled, err3_scaled)
-            if err5_norm_2 == 0.0 and err3_norm_2 == 0.0:
+            denom = err5_norm_2 + 0.01 * err3_norm_2
+            if denom == 0.0:
+                # both estimates vanish (or their squares underflow)
                 err_norm = 0.0
             else:
-                denom = err5_norm_2 + 0.01 * err3_norm_2
                 err_norm = np.abs(h) * err5_norm_2 / np.sqrt(denom * scale.size)
 
             if err_norm <= 1.0:
